@@ -46,10 +46,11 @@ type srvAttempt struct {
 }
 
 type srvCall struct {
-	steps    []srvStep
-	n        atomic.Int64
-	mu       sync.Mutex
-	attempts []srvAttempt
+	steps        []srvStep
+	stallExpired atomic.Bool
+	n            atomic.Int64
+	mu           sync.Mutex
+	attempts     []srvAttempt
 }
 
 type c18Server struct {
@@ -88,9 +89,13 @@ func newC18Server() *c18Server {
 		if st.Mode == "delayed" {
 			time.Sleep(15 * time.Millisecond)
 		}
-		if st.Mode == "stall" { // far beyond the client's per-attempt limit (c18AttemptTimeouts)
+		if st.Mode == "stall" {
+			// hold the headers back until the client has given up on this attempt (c18AttemptTimeouts): the attempt can then
+			// only end in the client's own per-attempt limit, however slowly the client process is scheduled. Should the
+			// client never give up, the scenario is marked and not judged.
 			select {
-			case <-time.After(400 * time.Millisecond):
+			case <-time.After(20 * time.Second):
+				c.stallExpired.Store(true)
 			case <-r.Context().Done():
 			}
 		}
